@@ -221,17 +221,20 @@ def run_harness(op, args, workdir, tag, log, timeout=3000, binary=None, env=None
     return lines, crashed, False
 
 
-def run_overlay_test(pkg_rel, overlay_map, test_name, gen_op, gen_args, workdir, tag, log, timeout=3000, race=False):
+def run_overlay_test(pkg_rel, overlay_map, test_name, gen_op, gen_args, workdir, tag, log, timeout=3000, race=False, cases_file=None):
     """Cases are generated by the harness (`gen_op`), executed by a test file that is *added* to a
     package of /repo at build time with `go test -overlay` (access to package main and unexported
     fields; nothing is written into /repo), and come back as lines for the Lean driver."""
     cases = os.path.join(workdir, tag + ".cases.jsonl")
     lines = os.path.join(workdir, tag + ".jsonl")
-    with open(cases, "w") as f:
-        p = subprocess.run([HARNESS, gen_op] + gen_args, stdout=f, stderr=subprocess.PIPE, text=True, env=GOENV, timeout=timeout)
-    if p.returncode != 0:
-        log.append("case generation %s failed: %s" % (gen_op, p.stderr[-800:]))
-        return lines, False
+    if cases_file:
+        shutil.copy(cases_file, cases)
+    else:
+        with open(cases, "w") as f:
+            p = subprocess.run([HARNESS, gen_op] + gen_args, stdout=f, stderr=subprocess.PIPE, text=True, env=GOENV, timeout=timeout)
+        if p.returncode != 0:
+            log.append("case generation %s failed: %s" % (gen_op, p.stderr[-800:]))
+            return lines, False
     ov = os.path.join(workdir, tag + ".overlay.json")
     with open(ov, "w") as f:
         json.dump({"Replace": {os.path.join(REPO, k): os.path.join(VERIF, v) for k, v in overlay_map.items()}}, f)
@@ -344,6 +347,8 @@ def main(argv):
         if args.replay:
             return do_replay(spec, args.replay, res, workdir)
         run_check(spec, res, workdir)
+        if spec.get("confirm"):
+            spec["confirm"](res, workdir)
         rc = conclude(spec, res, t0)
     finally:
         if not args.keep:
